@@ -120,7 +120,9 @@ func vfDistLess(key string, a, b peer.ID) bool {
 func VfFullRTClosest() {
 	N := vfParam("N")
 	vfHashBits(vfParam("W"))
-	vfHashConcrete()
+	if vfParam("CONCRETE") == 1 {
+		vfHashConcrete()
+	}
 	K := 1 + vfChoose("K", vfParam("MAXK"))
 	limit := vfChoose("limit", 3)
 	d, h, _ := vfNewFullRT(K, limit)
